@@ -271,7 +271,10 @@ def gen_op(rng, st):
     fmt = rng.choice(c['flavours'])
     cl = rng.choice([1, 4, 9]) if rng.random() < c['compress'] else 0
     ops.append({'op': 'save', 'cid': cid, 'spec': gen_spec(rng, fmt, c.get('big', 0.0)), 'fmt': fmt,
-                'complevel': cl, 'file': 's%d.nc' % cid})
+                'complevel': cl, 'file': 's%d.nc' % cid,
+                # the file handed to save(): the in-memory file itself, or the same
+                # content as a disk-backed file (written, closed, reopened)
+                'source': rng.choice(['mem', 'mem', 'mem', 'disk'])})
     ops.append({'op': 'read', 'cid': cid, 'which': 'ack',
                 'how': rng.choice(['explicit', 'explicit', 'auto'])})
     sched = rng.choice(SCHEDULES)
@@ -445,6 +448,17 @@ def apply(st, op):
         except BaseException as e:
             raise HarnessError('cannot build source: %r' % (e,))
         path = w.path(op['file'])
+        if op.get('source') == 'disk':
+            try:
+                p0 = w.path('src_' + op['file'])
+                h0 = f.save(p0, format='NETCDF4' if op['fmt'] == 'NETCDF4' else op['fmt'], verbose=0)
+                h0.close()
+                import PseudoNetCDF as pnc
+                f = pnc.pncopen(p0, format='netcdf')
+                st.keep = getattr(st, 'keep', []) + [f]
+                w.probe('source_is_disk_backed')
+            except BaseException as e:
+                raise HarnessError('cannot make the disk-backed source: %r' % (e,))
         st.stats['saves'] += 1
         st.stats['by_flavour'][op['fmt']] = st.stats['by_flavour'].get(op['fmt'], 0) + 1
         st.stats['masked_vars'] += sum(1 for v in op['spec']['vars'] if v.get('mask') is not None)
